@@ -15,7 +15,7 @@ RULE = (
     "iteration checked + distinct constructor power values"
 )
 REQUIRED = {"iter_memoryless": 300, "iter_first_with_memory": 30, "iter_convex": 300, "constructor_refused": 10, "constructor_accepted": 10,
-            "burn_in_len_checks": 50}
+            "burn_in_len_checks": 50, "reruns_of_same_algorithm_object": 5}
 ASSUMPTIONS = [
     "n_burn_in from a fraction: both int(frac*n_iter) in floating point and the exact rational floor are accepted (the statement does not pin "
     "float rounding of the product)",
@@ -39,7 +39,7 @@ def run_shard(spec, ctx):
 
     import numpy as np
 
-    from leaspy.exceptions import LeaspyConvergenceError
+    from leaspy.exceptions import LeaspyAlgoInputError, LeaspyConvergenceError
     from vf import gen
     from vf.checks.c04 import fit_with_probe
     from vf.checks.c15 import install_contract
@@ -52,7 +52,7 @@ def run_shard(spec, ctx):
         kind, dim, src, noise = g
         n_iter = int(rng.integers(1, 61))
         power = float(rng.choice([0.51, 0.6, 0.75, 0.8, 0.9, 1.0, float(rng.uniform(0.5001, 1.0))]))
-        mode = ["frac", "count"][(spec["k"] + i) % 2]
+        mode = ["frac", "count", "count+frac"][(spec["k"] + i) % 3]
         settings = dict(n_iter=n_iter, burn_in_step_power=power, seed=int(rng.integers(1 << 30)))
         if mode == "frac":
             frac = float(rng.choice([0.0, 0.1, 0.29, 1 / 3, 0.5, 0.7, 0.9, 0.999, 1.0, float(rng.uniform(0, 1))]))
@@ -60,9 +60,13 @@ def run_shard(spec, ctx):
             exact = math.floor(Fraction(frac) * n_iter)
             allowed = {int(frac * n_iter), exact}
         else:
-            nb = int(rng.choice([0, 1, max(n_iter - 1, 0), n_iter, n_iter + 3, int(rng.integers(0, n_iter + 1))]))
+            nb = int(rng.choice([0, 0, 1, max(n_iter - 1, 0), n_iter, n_iter + 3, int(rng.integers(0, n_iter + 1))]))
             settings["n_burn_in_iter"] = nb
-            settings["n_burn_in_iter_frac"] = None
+            if mode == "count":
+                settings["n_burn_in_iter_frac"] = None
+            else:  # an explicit count has priority over the (default or given) fraction
+                if rng.random() < 0.5:
+                    settings["n_burn_in_iter_frac"] = float(rng.choice([0.3, 0.5, 0.9]))
             allowed = {nb}
         events = kind == "joint"
         case = {"index": i, "model": list(map(str, g)), "settings": {k: v for k, v in settings.items() if k != "seed"}}
@@ -77,8 +81,32 @@ def run_shard(spec, ctx):
             ctx.count("setup_skipped")
             continue
         algo = probe = None
+        rerun = bool((spec["k"] + i) % 4 == 0)  # the same algorithm object is run a second time on a fresh model (history of the object)
         try:
-            algo, probe = fit_with_probe(model, ds, settings)
+            import warnings as _w
+
+            with _w.catch_warnings():
+                _w.simplefilter("ignore")
+                algo, probe = fit_with_probe(model, ds, settings)
+                first_len = len(probe.records)
+                if rerun:
+                    from vf.probes.algo import MStepProbe
+                    import contextlib, io
+
+                    model2 = gen.make_model(kind, dim, src, noise, **kw) if noise else gen.make_model(kind, dim, src, **kw)
+                    model2.initialize(ds)
+                    probe2 = MStepProbe(algo, model2)
+                    with contextlib.redirect_stdout(io.StringIO()):
+                        try:
+                            algo.run(model2, ds)
+                        finally:
+                            probe2.uninstall()
+                    ctx.count("reruns_of_same_algorithm_object")
+                    probe.records = probe.records + probe2.records
+        except LeaspyAlgoInputError as e:
+            # the configuration is admissible (power in (0.5, 1], counts >= 0): refusing it breaks "the length of the memory-less phase is the
+            # configured fraction unless an explicit count is given"
+            ctx.violation("sa/admissible-configuration-refused", f"settings {case['settings']} were refused: {str(e)[:160]}", case)
         except LeaspyConvergenceError:
             ctx.count("fit_aborted_by_convergence_guard")
         except Exception as e:
@@ -108,6 +136,8 @@ def run_shard(spec, ctx):
         bad = False
         for rec in recs:
             k = rec["k"]
+            if k == 1:
+                prev = None  # a new run of the (possibly reused) algorithm object starts a new schedule
             s_k, S_after = rec["s_k"], rec["S_after"]
             # the statistics handed to the M-step are the stored ones
             for name in S_after:
